@@ -222,3 +222,47 @@ Definition calc_pns (lp : Q -> nat -> list Q -> list Q) (gamma dt : Q) (hx hy hz
       let nsq := normsq3 cx cy cz in
       OK (mkOut (ok_of nsq) nsq cx cy cz)
   end.
+
+(* ---------------------------------------------------------------------------------------------- *)
+(* Round 2: the SAFE reference, the tap count, the truncation bound of the whole chain *)
+
+(* safe_tau_lowpass:282  n = min(round(np.log(eps) / np.log(1 - alpha)), N).  np.log is outside the
+   model; n is characterised by a rational bracket instead.  With x = log eps / log r (r = 1-alpha,
+   so r^x = eps) and |round(x) - x| <= 1/2:  r^(n0+1) <= eps <= r^(n0-1) for n0 = round(x); the code
+   then takes n = min(n0, N) (N = length of the padded slew-rate vector).  [tap_count_ok] is the
+   decidable half of it that the error bound needs; the harness evaluates it on the implementation's n for every case. *)
+Definition tap_count_ok (n N : nat) (alpha eps : Q) : bool :=
+  let r := 1 - alpha in
+  Nat.leb 1 n && Nat.leb n N && (Nat.eqb n N || Qle_bool (Qpower r (Z.of_nat (S n))) eps).
+(* the other side of the bracket (the code does not use more taps than the accuracy asks for); not
+   needed by any bound, reported by the harness only *)
+Definition tap_count_tight (n : nat) (alpha eps : Q) : bool :=
+  Qle_bool eps (Qpower (1 - alpha) (Z.of_nat (n - 1))).
+
+Fixpoint taps_ok (h : hwax) (dtms : Q) (bs : list branch) (taps : list nat) (N : nat) : bool :=
+  match bs with
+  | [] => true
+  | b :: bs' => tap_count_ok (hd O taps) N (alpha_of dtms (hw_tau h (b_tau b))) lowpass_eps
+                && taps_ok h dtms bs' (tl taps) N
+  end.
+
+(* the SAFE model of the property text: three first-order (recursive) low-pass filters of the slew
+   rate combined with the hardware weights, / stim_limit * g_scale, on the slew rate of the
+   gradient (T/m) preceded by one zero sample *)
+Definition lp_iir (alpha : Q) (_ : nat) (x : list Q) : list Q := lowpass_iir alpha x.
+Definition safe_axis (h : hwax) (gamma dt : Q) (g : list Q) : list Q :=
+  map (fun s => s / stim_limit h * g_scale h)
+      (stim_sum lp_iir h (dt * ms_factor) branches [] (dgdt dt (0 :: to_tesla gamma g))).
+
+(* truncation error of the weighted sum for slew rates bounded by M and a signal of L samples:
+   a branch whose tap count covers the signal contributes nothing *)
+Fixpoint trunc_bound (h : hwax) (dtms : Q) (bs : list branch) (taps : list nat) (L : nat) (M : Q) : Q :=
+  match bs with
+  | [] => 0
+  | b :: bs' =>
+    (if Nat.leb L (hd O taps) then 0
+     else Qabs (hw_a h (b_weight b)) * (M * Qpower (1 - alpha_of dtms (hw_tau h (b_tau b))) (Z.of_nat (hd O taps))))
+    + trunc_bound h dtms bs' (tl taps) L M
+  end.
+Fixpoint weight_sum (h : hwax) (bs : list branch) : Q :=
+  match bs with [] => 0 | b :: bs' => Qabs (hw_a h (b_weight b)) + weight_sum h bs' end.
